@@ -177,6 +177,15 @@ def c14_range(ii: int, ni: int, o: int, form: int) -> bool:
         nc[1].name = name  # a container edited in place (no longer sorted)
         nc[1].octave = o
         x = nc
+    # every other instrument judged the same note first (by its own range): that leaves this track's verdict alone
+    for nm2, cls2, lo2, hi2 in INSTR:
+        if nm2 != nm:
+            other = Track(cls2())
+            if lo2 <= p <= hi2:
+                if other.add_notes(Note(name, o), 4) is not True:
+                    return False
+            elif not raises_(InstrumentRangeError, other.add_notes, Note(name, o), 4):
+                return False
     if inside:
         ok = t.add_notes(x, 4) is True
         items = list(t.get_notes())
